@@ -457,28 +457,32 @@ fn payload6(b: &[u8], r: Result<Icmpv6PayloadSlice, LenError>) -> String {
     };
     match &p {
         Icmpv6PayloadSlice::DestinationUnreachable(v) => format!(
-            "DestinationUnreachable(sl={},data={},tp={})",
+            "DestinationUnreachable(sl={},data={},tp={}){}",
             sl,
             win(b, v.invoking_packet()),
-            tp
+            tp,
+            embedded_ip_differs(v.invoking_packet(), v.as_lax_ip_slice())
         ),
         Icmpv6PayloadSlice::PacketTooBig(v) => format!(
-            "PacketTooBig(sl={},data={},tp={})",
+            "PacketTooBig(sl={},data={},tp={}){}",
             sl,
             win(b, v.invoking_packet()),
-            tp
+            tp,
+            embedded_ip_differs(v.invoking_packet(), v.as_lax_ip_slice())
         ),
         Icmpv6PayloadSlice::TimeExceeded(v) => format!(
-            "TimeExceeded(sl={},data={},tp={})",
+            "TimeExceeded(sl={},data={},tp={}){}",
             sl,
             win(b, v.invoking_packet()),
-            tp
+            tp,
+            embedded_ip_differs(v.invoking_packet(), v.as_lax_ip_slice())
         ),
         Icmpv6PayloadSlice::ParameterProblem(v) => format!(
-            "ParameterProblem(sl={},data={},tp={})",
+            "ParameterProblem(sl={},data={},tp={}){}",
             sl,
             win(b, v.invoking_packet()),
-            tp
+            tp,
+            embedded_ip_differs(v.invoking_packet(), v.as_lax_ip_slice())
         ),
         Icmpv6PayloadSlice::EchoRequest(v) => {
             format!("EchoRequest(sl={},data={},tp={})", sl, win(b, v.data()), tp)
@@ -529,6 +533,23 @@ fn payload6(b: &[u8], r: Result<Icmpv6PayloadSlice, LenError>) -> String {
         ),
         Icmpv6PayloadSlice::Raw(_) => format!("Raw(sl={},tp={})", sl, tp),
         _ => "OtherPayload()".to_string(),
+    }
+}
+
+/// `as_lax_ip_slice()` of the ICMPv6 error payloads is lax IP decoding of the invoking packet
+type LaxIpRes<'a> = Result<
+    (
+        LaxIpSlice<'a>,
+        Option<(err::ipv6_exts::HeaderSliceError, err::Layer)>,
+    ),
+    err::ip::LaxHeaderSliceError,
+>;
+fn embedded_ip_differs(data: &[u8], got: LaxIpRes) -> &'static str {
+    let want = LaxIpSlice::from_slice(data);
+    if format!("{:?}", want) == format!("{:?}", got) {
+        ""
+    } else {
+        "!doors-differ(as_lax_ip_slice)"
     }
 }
 
